@@ -25,6 +25,7 @@ import (
 	"github.com/bytom/bytom/contract"
 	"github.com/bytom/bytom/crypto/ed25519/chainkd"
 	dbm "github.com/bytom/bytom/database/leveldb"
+	bterrors "github.com/bytom/bytom/errors"
 	"github.com/bytom/bytom/protocol/bc"
 	"github.com/bytom/bytom/protocol/bc/types"
 	"github.com/bytom/bytom/wallet"
@@ -69,19 +70,20 @@ func (a acctDesc) keyIdx() []int {
 
 // env is one node with one wallet.
 type env struct {
-	w     *ck.World
-	n     *ck.Node
-	db    dbm.DB
-	mgr   *account.Manager
-	wal   *wallet.Wallet
-	descs []acctDesc
-	accts []*account.Account
-	progs []*account.CtrlProgram // every control program of the wallet, in creation order
-	owner []int                  // account index of each program
-	byPrg map[string]int
-	alias map[string]string // account id -> alias
-	seed  [][2][]byte       // content of the wallet database after account set-up, before the wallet saw any block
-	dbs   []dbm.DB
+	w       *ck.World
+	n       *ck.Node
+	db      dbm.DB
+	mgr     *account.Manager
+	wal     *wallet.Wallet
+	descs   []acctDesc
+	accts   []*account.Account
+	progs   []*account.CtrlProgram // every control program of the wallet, in creation order
+	owner   []int                  // account index of each program
+	byPrg   map[string]int
+	alias   map[string]string // account id -> alias
+	seed    [][2][]byte       // content of the wallet database after account set-up, before the wallet saw any block
+	dbs     []dbm.DB
+	scratch dbm.DB
 }
 
 func (e *env) close() {
@@ -101,12 +103,13 @@ func (e *env) newDB() dbm.DB {
 // `addrs` receiving programs and one change program each.
 func newEnv(p ck.Params, descs []acctDesc, addrs int) (*env, error) {
 	e := &env{w: ck.NewWorld(p), descs: descs, byPrg: map[string]int{}, alias: map[string]string{}}
-	n, err := ck.NewNode(e.w, ck.NewMemDB())
+	ndb := &softDB{DB: ck.NewMemDB()}
+	e.dbs = append(e.dbs, ndb)
+	n, err := ck.NewNode(e.w, ndb)
 	if err != nil {
 		return nil, fmt.Errorf("HARNESS: cannot start node: %v", err)
 	}
 	e.n = n
-	e.dbs = append(e.dbs, n.DB)
 	e.db = e.newDB()
 	e.mgr = account.VerifNewManager(e.db, n.Chain)
 	for i, d := range descs {
@@ -154,9 +157,19 @@ func (e *env) openWallet(db dbm.DB, mgr *account.Manager) (*wallet.Wallet, error
 // rescan opens a wallet over a fresh database holding the same accounts and lets it follow
 // the current main chain from genesis.
 func (e *env) rescan() (*wallet.Wallet, error) {
-	db := ck.NewMemDB()
-	e.dbs = append(e.dbs, db)
+	// one scratch database per case, emptied before every rescan (opening a database allocates its 4 MiB write buffer)
+	if e.scratch == nil {
+		e.scratch = e.newDB()
+	}
+	db := e.scratch
 	b := db.NewBatch()
+	it := db.Iterator()
+	for it.Next() {
+		b.Delete(append([]byte{}, it.Key()...))
+	}
+	it.Release()
+	b.Write()
+	b = db.NewBatch()
 	for _, kv := range e.seed {
 		b.Set(kv[0], kv[1])
 	}
@@ -180,13 +193,6 @@ func (e *env) rescan() (*wallet.Wallet, error) {
 			return nil, fmt.Errorf("HARNESS: rescan does not terminate")
 		}
 	}
-}
-
-// dropLast closes and forgets the most recently opened database (the rescan one).
-func (e *env) dropLast() {
-	d := e.dbs[len(e.dbs)-1]
-	d.Close()
-	e.dbs = e.dbs[:len(e.dbs)-1]
 }
 
 // ---------------------------------------------------------------------------------------------
@@ -252,7 +258,7 @@ func rawHex(tx *types.Tx) (string, error) {
 // only ever spend harness-owned (OP_TRUE) outputs and wallet transactions are signed.
 
 type wTx struct {
-	Kind string `json:"kind"` // pay payvote issuepay wspend wveto wvote wxfer
+	Kind string `json:"kind"` // pay paysmall payvote issuepay wspend wveto wvote wxfer
 	Pick int    `json:"pick"`
 	To   int    `json:"to"`
 	Amt  int    `json:"amt"`
@@ -264,6 +270,9 @@ type wBlock struct {
 	Skip int   `json:"skip,omitempty"`
 	CB   int   `json:"cb,omitempty"` // 0: proposer's own coinbase program; k>0: wallet program k-1
 	Txs  []wTx `json:"txs,omitempty"`
+	// verification signatures carried in the header; only meaningful when the block turns out to be
+	// a checkpoint block.  A justified checkpoint on a shorter branch makes the chain switch to it.
+	Sup []ck.SupDesc `json:"sup,omitempty"`
 }
 
 type view struct {
@@ -394,12 +403,15 @@ func (e *env) resolve(v *view, d wTx, salt uint64) (*types.Tx, error) {
 		return u.Asset == btm && u.Kind != ck.KindVote && e.owned(u) && p.Spendable(u, h) && u.Amount >= 3*walletFee
 	})
 	switch d.Kind {
-	case "pay", "payvote":
+	case "pay", "payvote", "paysmall":
 		a := pickU(harnessBTM, d.Pick)
 		if a == nil {
 			return nil, nil
 		}
 		amt := unit*uint64(1+abs(d.Amt)%4) + uint64(abs(d.N)%7)*1000
+		if d.Kind == "paysmall" {
+			amt = 5000000*uint64(1+abs(d.Amt)%40) + uint64(abs(d.N))
+		}
 		var out *types.TxOutput
 		if d.Kind == "payvote" {
 			key := ck.Key(abs(d.N) % ck.NumKeys).XPub()
@@ -480,7 +492,7 @@ func (e *env) resolve(v *view, d wTx, salt uint64) (*types.Tx, error) {
 func (e *env) addBlock(parent int, b wBlock) (int, []string, error) {
 	par := e.w.Blocks[parent]
 	v := &view{utxos: par.State.Sorted(), h: par.Block.Height + 1}
-	bd := ck.BlockDesc{Parent: parent, Skip: b.Skip}
+	bd := ck.BlockDesc{Parent: parent, Skip: b.Skip, Sup: b.Sup}
 	if b.CB > 0 {
 		bd.CoinbaseProg = hex.EncodeToString(e.prog(b.CB - 1))
 	}
@@ -617,7 +629,6 @@ func (e *env) compareWithRescan() error {
 	if err != nil {
 		return err
 	}
-	defer e.dropLast()
 	var msgs []string
 	for _, prefix := range []string{account.UTXOPreFix, account.SUTXOPrefix} {
 		g, err := rawRecords(e.wal.DB, prefix)
@@ -636,6 +647,28 @@ func (e *env) compareWithRescan() error {
 			wr[k] = e.row(u)
 		}
 		msgs = append(msgs, diffRows("records under "+prefix, gr, wr)...)
+	}
+	// the same scan done by the ledger model: the unspent outputs of the main chain that are locked by a wallet program
+	if best := e.n.BestIdx(); best >= 0 {
+		g, err := rawRecords(e.wal.DB, account.UTXOPreFix)
+		if err != nil {
+			return err
+		}
+		gr, wr := map[string]urow{}, map[string]urow{}
+		for k, u := range g {
+			gr[k] = e.row(u)
+		}
+		for id, u := range e.w.Blocks[best].State.Utxos {
+			pi, ok := e.byPrg[string(u.Program)]
+			if !ok {
+				continue
+			}
+			wr[string(account.StandardUTXOKey(id))] = urow{ID: id.String(), Asset: u.Asset.String(), Amount: u.Amount, Program: hex.EncodeToString(u.Program),
+				Account: e.accts[e.owner[pi]].Alias, Vote: hex.EncodeToString(u.Vote)}
+		}
+		for _, m := range diffRows("records under "+account.UTXOPreFix+" against the ledger model of the main chain", gr, wr) {
+			msgs = append(msgs, strings.ReplaceAll(m, "the rescan", "the model"))
+		}
 	}
 	ids := []string{""}
 	for _, a := range e.accts {
@@ -684,11 +717,11 @@ func (e *env) describeBlock(i int) string {
 			}
 			if _, ok := e.byPrg[string(in.ControlProgram())]; ok {
 				id, _ := in.SpentOutputID()
-				k := "spend"
+				k := "spends"
 				if in.InputType() == types.VetoInputType {
-					k = "veto"
+					k = "vetoes"
 				}
-				parts = append(parts, fmt.Sprintf("tx%d %ss wallet output %s..", ti, k, id.String()[:12]))
+				parts = append(parts, fmt.Sprintf("tx%d %s wallet output %s..", ti, k, id.String()[:12]))
 			}
 		}
 		for oi, o := range tx.Outputs {
@@ -734,4 +767,17 @@ func (e *env) touchesWallet(i int) (voteOut, veto, spend, cbOut bool) {
 		}
 	}
 	return
+}
+
+// errorsData renders the per-action errors a failed Build carries.
+func errorsData(err error) string {
+	acts, ok := bterrors.Data(err)["actions"].([]error)
+	if !ok {
+		return ""
+	}
+	var parts []string
+	for _, a := range acts {
+		parts = append(parts, a.Error())
+	}
+	return strings.Join(parts, "; ")
 }
